@@ -106,7 +106,15 @@ def only_value_binders(ctx: Ctx, rule: str) -> int:
                             "names bound by import / def / class designate modules and callables: a call through such a name (dds.eval, mod.f) is filtered as "
                             "'method call on a local variable' by both analysis passes, so nested eval and co-recursion through it are not rejected"],
                             stmt_key(x), what=f"names bound by {kind} statements are classified as local variables")
-                elif kind in ("Name", "arg", "ExceptHandler", "NamedExpr", "__init__"):
+                elif kind in ("arg", "arguments", "Lambda"):
+                    # the visitor walks the *body* of the analysed function: every ast.arg it meets is a parameter of a nested
+                    # lambda / inner def, i.e. a name of another scope
+                    rep.bad(rule, m.qname, desc, m.loc(x), [f"{m.loc(x)}: `{unparse(x, 60)}` in visit_{kind}",
+                            "parameters of nested lambdas / inner functions are recorded as local variables of the enclosing function: a module variable of the "
+                            "same name that the enclosing function reads (`lambda scale: ..` next to a use of the global `scale`) is dropped from the signature "
+                            "and from the call-site context, so editing it serves the stale blob"],
+                            stmt_key(x), what="parameters of nested scopes are classified as local variables of the enclosing function")
+                elif kind in ("Name", "ExceptHandler", "NamedExpr", "__init__"):
                     rep.ok(rule, m.qname, desc, m.loc(x))
                 else:
                     rep.unknown(rule, m.qname, f"local-variable source visit_{kind} not classified", m.loc(x))
